@@ -394,6 +394,9 @@ type Mode struct {
 	// Skip: schema holders are not followed on either side; they are related iff they
 	// designate the same location.
 	Skip bool
+	// Canon, if set, maps a reference string to the form it has after the document was decoded
+	// (the reference codec's own canonicalisation is not the expander's doing).
+	Canon func(string) string
 }
 
 // Mismatch is a failed bisimulation, with the clause that failed.
@@ -433,13 +436,16 @@ func bisim(wa *World, a Node, wb *World, b Node, mode Mode, visited map[string]b
 				return nil // the property is silent below an unresolvable element reference
 			}
 			bad, _ := RefOf(da.Val)
+			if mode.Canon != nil {
+				bad = mode.Canon(bad)
+			}
 			cur := b
 			for i := 0; i < 1000; i++ {
 				r, ok := RefOf(cur.Val)
 				if !ok {
 					return &Mismatch{"verbatim", trail, fmt.Sprintf("unresolvable schema $ref %q was not kept: output has %s", bad, JSONString(cur.Val))}
 				}
-				if r == bad {
+				if r == bad || (mode.Canon != nil && mode.Canon(r) == bad) {
 					return nil
 				}
 				t, err := wb.Resolve(cur.URL, r, cur.Kind)
